@@ -127,8 +127,16 @@ def body(c):
                 'pair %d: AMUSEt %s vs matrix EDMD %s' % (j, np.sort(ev), np.sort(np.real(lam))))
         dist = np.abs(np.asarray(ev) - 1)
         cplx = np.any(np.abs(np.imag(lam)) > 1e-8 * lmax)
-        if not cplx:
-            require(np.all(dist[1:] >= dist[:-1] - 1e-6 * lmax), 'ordering', 'pair %d: eigenvalues not ordered by distance to 1: %s' % (j, ev))
+        # documented ordering: by |lambda - 1| of the (possibly complex) eigenvalues, then real parts are reported
+        dl = np.abs(lam - 1)
+        order = np.argsort(dl, kind='stable')
+        ds = dl[order]
+        ties = [(ds[a + 1] - ds[a]) < 1e-5 * lmax and abs(np.real(lam[order[a + 1]]) - np.real(lam[order[a]])) > 1e-7 * lmax for a in range(k - 1)]
+        if not any(ties):
+            want_seq = np.real(lam[order])
+            require(np.all(np.abs(np.asarray(ev) - want_seq) <= 1e-6 * lmax), 'ordering',
+                    'pair %d: eigenvalues %s are not in the order of increasing |lambda - 1| (expected %s)' % (j, ev, want_seq))
+            lab.add('ordering_checked_complex' if cplx else 'ordering_checked')
         require_consistent(et, 'consistent')
         require(et.row_dims == nmodes + [k] and et.col_dims == [1] * (len(nmodes) + 1), 'dims', 'pair %d: rows %s, expected %s' % (j, et.row_dims, nmodes + [k]))
         if k < min(N, len(pairs[j][0])):
@@ -166,5 +174,5 @@ def nt(labels):
 SUBCHECKS = [
     Sub('amuset', amuset_case(), body, nt, quick=200, thorough=2000, shards_quick=8, budget_quick=150,
         classes=['hosvd', 'hocur', 'pair_list', 'subset_indices', 'multi_mode', 'rank_deficient_psi_x', 'eigen_equation_checked',
-                 'complex_or_close_spectrum']),
+                 'complex_or_close_spectrum', 'ordering_checked', 'ordering_checked_complex']),
 ]
